@@ -446,15 +446,21 @@ pub fn check_groups(b: &mut Built, rebuild: &dyn Fn() -> Result<Built, String>, 
                 if e.starts_with("FATAL") {
                     tripped.push((q["keys"].clone(), q["aggs"].clone()));
                     rebuilds += 1;
-                    if rebuilds > 60 {
-                        break;
-                    }
-                    match rebuild() {
-                        Ok(nb) => {
-                            let old = std::mem::replace(b, nb);
-                            discard(old);
+                    let mut stop = rebuilds > 60;
+                    if !stop {
+                        match rebuild() {
+                            Ok(nb) => {
+                                let old = std::mem::replace(b, nb);
+                                discard(old);
+                            }
+                            Err(_) => stop = true,
                         }
-                        Err(_) => break,
+                    }
+                    if stop {
+                        for v in vio[vio_before..].iter_mut() {
+                            v["panics"] = json!(qpanics);
+                        }
+                        break;
                     }
                 }
             }
